@@ -23,12 +23,16 @@ var (
 	Actions     = []string{"", "NO ACTION", "RESTRICT", "CASCADE", "SET NULL", "SET DEFAULT"}
 )
 
+// wordOnly is set for the duration of a generation by GenSchema/Edit from Opts.WordNames.
+var wordOnly bool
+
 // Opts tunes the generator; zero value = everything on.
 type Opts struct {
 	NoExprIndex    bool // no expression index parts
 	NoInlineUnique bool // no inline UNIQUE column constraints
 	NoGenerated    bool
 	NoStrict       bool
+	WordNames      bool // identifiers match \w+ only (no spaces): the regex-based recovery in the SQLite inspector is known to fail otherwise
 	KeyColumn      bool // every table gets a never-edited unique key column "k" (C05)
 	SimpleDefaults bool
 }
@@ -68,6 +72,9 @@ func pick[T any](t *rapid.T, label string, xs []T) T {
 func unusedName(t *rapid.T, label string, pool []string, used map[string]bool) (string, bool) {
 	var free []string
 	for _, n := range pool {
+		if wordOnly {
+			n = strings.ReplaceAll(n, " ", "_")
+		}
 		if !used[n] {
 			free = append(free, n)
 		}
@@ -265,6 +272,8 @@ func genFK(t *rapid.T, s *Schema, ti int, n int) (FK, bool) {
 
 // GenSchema draws a schema of 1..maxTables tables with foreign keys (self, cross, cyclic).
 func GenSchema(t *rapid.T, maxTables int, o Opts) Schema {
+	wordOnly = o.WordNames
+	defer func() { wordOnly = false }()
 	var s Schema
 	used := map[string]bool{}
 	n := rapid.IntRange(1, maxTables).Draw(t, "ntables")
